@@ -19,7 +19,38 @@ func (w *world) regionFor(p token.Pos) int {
 	return r
 }
 
-func (t *tr) fresh(p token.Pos) tag { return tag{k: 'F', region: t.w.regionFor(p)} }
+// fresh: the tag of an object allocated at position p. Once objects of that
+// allocation site have been published (or tainted by shared content) the
+// site stays shared for the rest of the function (flow-insensitive, safe).
+func (t *tr) fresh(p token.Pos) tag {
+	r := t.w.regionFor(p)
+	if t.dead[r] {
+		return tagS
+	}
+	return tag{k: 'F', region: r}
+}
+
+// carriesTracked: a value of type ty is, or contains references to, objects
+// of a tracked type other than DB (whose tag never depends on the root).
+func (t *tr) carriesTracked(ty types.Type, depth int) bool {
+	if ty == nil || depth > 6 {
+		return false
+	}
+	if tn := t.w.trackedName(ty); tn != "" {
+		return tn != "DB"
+	}
+	switch u := ty.Underlying().(type) {
+	case *types.Pointer:
+		return t.carriesTracked(u.Elem(), depth+1)
+	case *types.Slice:
+		return t.carriesTracked(u.Elem(), depth+1)
+	case *types.Array:
+		return t.carriesTracked(u.Elem(), depth+1)
+	case *types.Map:
+		return t.carriesTracked(u.Elem(), depth+1) || t.carriesTracked(u.Key(), depth+1)
+	}
+	return false
+}
 
 func (t *tr) varOf(id *ast.Ident) *types.Var {
 	if id == nil {
@@ -184,7 +215,7 @@ func (t *tr) setVar(v *types.Var, tg tag) {
 	if v == nil || t.env == nil {
 		return
 	}
-	if tg.k == 'S' {
+	if tg.k == 'S' || (tg.k == 'F' && t.dead[tg.region]) {
 		delete(t.env, v)
 		return
 	}
@@ -199,6 +230,10 @@ func (t *tr) publish(r int) {
 	if r <= len(t.publishes) {
 		t.publishes[r-1] = true
 	}
+	if t.dead == nil {
+		t.dead = map[int]bool{}
+	}
+	t.dead[r] = true
 	for v, tg := range t.env {
 		if tg.k == 'F' && tg.region == r {
 			delete(t.env, v)
@@ -239,9 +274,28 @@ func (t *tr) store(root, val tag) {
 	if val.k != 'F' {
 		return
 	}
+	if t.dead[val.region] {
+		// the stored object is already shared: see storeShared
+		if root.k == 'F' {
+			t.publish(root.region)
+		}
+		return
+	}
 	if root.k == 'F' {
 		t.merge(root.region, val.region)
 		return
 	}
 	t.publish(val.region)
+}
+
+// storeShared: a value that is not fresh and carries references to tracked
+// objects is stored into a fresh container: what is read back through the
+// container is shared, so the container stops being treated as thread-local.
+func (t *tr) storeShared(root tag, val tag, valType types.Type) {
+	if root.k != 'F' || val.k == 'F' {
+		return
+	}
+	if t.carriesTracked(valType, 0) {
+		t.publish(root.region)
+	}
 }
